@@ -265,6 +265,22 @@ func (db *Database) buildTFIDFSearcher() {
 	}
 }
 
+// effectiveLimit replaces a non-positive limit by def and caps it at the number of
+// commands (no answer can be longer), so that arithmetic on the limit - buffer
+// sizes, candidate windows - cannot overflow for extreme values.
+func (db *Database) effectiveLimit(limit, def int) int {
+	if limit <= 0 {
+		limit = def
+	}
+	if n := len(db.Commands); limit > n {
+		limit = n
+	}
+	if limit < 1 {
+		limit = 1 // empty database: keep the limit positive
+	}
+	return limit
+}
+
 // SearchUniversal performs BM25F search over the index with optional platform/pipeline filters.
 func (db *Database) SearchUniversal(query string, options SearchOptions) []SearchResult {
 	if db.uIndex == nil || db.uIndex.N != len(db.Commands) {
@@ -277,9 +293,7 @@ func (db *Database) SearchUniversal(query string, options SearchOptions) []Searc
 		}
 	}
 
-	if options.Limit <= 0 {
-		options.Limit = 10
-	}
+	options.Limit = db.effectiveLimit(options.Limit, 10)
 
 	terms := normalizeAndTokenize(query)
 	var pq *nlp.ProcessedQuery
